@@ -191,6 +191,16 @@ carquet_schema_t* build_schema(
                    schema->max_def_levels, schema->max_rep_levels,
                    schema->leaf_indices);
 
+    /* Make the levels available to the per-node accessors, which see only
+     * the element and cannot walk up to its ancestors. */
+    for (int32_t i = 0; i < schema->num_leaves; i++) {
+        int32_t elem_idx = schema->leaf_indices[i];
+        if (elem_idx > 0 && elem_idx < schema->num_elements) {
+            schema->elements[elem_idx].max_def_level = schema->max_def_levels[i];
+            schema->elements[elem_idx].max_rep_level = schema->max_rep_levels[i];
+        }
+    }
+
     return schema;
 }
 
